@@ -85,7 +85,7 @@ def run_family(max_len=2, time_limit=5):
     import warnings
     warnings.simplefilter("ignore")
     old = signal.signal(signal.SIGALRM, _alarm)
-    bad_total, bad_skel, bad_diff, n = [], [], [], 0
+    bad_total, bad_skel, bad_diff, bad_lint, n = [], [], [], [], 0
     try:
         inputs = []
         for k in range(0, max_len + 1):
@@ -110,6 +110,15 @@ def run_family(max_len=2, time_limit=5):
                             tree = p.parseFragment(src, container=container, scripting=scripting)
                         if len(src) < 200:
                             dumps[(kind, container, scripting)] = _dump(tree, kind)
+                            try:
+                                from html5lib.filters.lint import Filter as Lint
+                                from html5lib import treewalkers
+                                for _ in Lint(treewalkers.getTreeWalker(kind)(tree)):
+                                    pass
+                            except _Timeout:
+                                raise
+                            except Exception as e:
+                                bad_lint.append([src[:80], kind, container, "%s: %s" % (type(e).__name__, str(e)[:120])])
                         signal.alarm(0)
                     except _Timeout:
                         bad_total.append([src[:80], kind, container, "no result within the time limit"])
@@ -146,7 +155,7 @@ def run_family(max_len=2, time_limit=5):
                 break
     finally:
         signal.signal(signal.SIGALRM, old)
-    return bad_total, bad_skel, bad_diff, n
+    return bad_total, bad_skel, bad_diff, n, bad_lint
 
 
 _CACHE = {}
@@ -160,7 +169,7 @@ def _family():
 
 @ground("C03", tier="thorough")
 def parse_is_total_on_an_enumerated_family():
-    bad_total, bad_skel, bad_diff, n = _family()
+    bad_total, bad_skel, bad_diff, n, bad_lint = _family()
     bad = bad_total + bad_skel
     r = rec("C03/bounded/total-and-skeleton-on-an-enumerated-family", not bad, n,
             "every string of at most 2 pieces out of %d (tags, end tags, text, comment, doctype), as a document (scripting off/on) "
@@ -173,10 +182,22 @@ def parse_is_total_on_an_enumerated_family():
 
 @ground("C04", tier="thorough")
 def builders_agree_on_an_enumerated_family():
-    bad_total, bad_skel, bad_diff, n = _family()
+    bad_total, bad_skel, bad_diff, n, bad_lint = _family()
     r = rec("C04/bounded/builders-agree-on-an-enumerated-family", not bad_diff, n,
             "the etree and dom builders give the same abstract tree (walker tokens with adjacent text merged) for every string "
             "of at most 2 pieces out of %d, as a document and as a fragment in %d context elements" % (len(PIECES), len(CONTAINERS)),
             witness=bad_diff[:4] or None, exhaustive=False)
     r["bounded"] = "%d parses" % n
+    return r
+
+
+@ground("C11", tier="thorough")
+def walker_streams_pass_lint_on_an_enumerated_family():
+    bad_total, bad_skel, bad_diff, n, bad_lint = _family()
+    r = rec("C11/bounded/walker-streams-pass-lint-and-agree", not (bad_lint or bad_diff), n,
+            "for every tree of the enumerated family (strings of at most 2 pieces out of %d, document and fragment in %d context "
+            "elements, both builders) the walker's token stream is accepted by the Lint filter, and the etree and dom walkers emit "
+            "the same stream once adjacent text is merged" % (len(PIECES), len(CONTAINERS)), witness=(bad_lint + bad_diff)[:4] or None,
+            exhaustive=False)
+    r["bounded"] = "%d trees" % n
     return r
